@@ -385,7 +385,7 @@ class CompGen:
         if not text or (not domain and ("U" in text or "H" in text) and "." in text):
             text = dp
         r = rng.random()
-        opt = None if r < 0.4 else "no-opt" if r < 0.55 else str(rng.choice([1, 2, 5, 10, 3]))
+        opt = None if r < 0.4 else "no-opt" if r < 0.55 else str(rng.choice([1, 2, 5, 10, 3, "0.5", "2.5", "0.25", "1.5", "0.04", "12.75", "7.0"]))
         self.stmts.append({"k": "struct", "opt": opt, "name": name, "strands": snames, "domain": domain, "text": text})
         self.structs[name] = {"strands": snames, "dp": dp, "opt": opt}
         return name
